@@ -214,6 +214,9 @@ pub fn run(tier: Tier) -> Report {
                 push(g);
             }
             crate::fam::with_defs(km, k1, k2, &mut |g| push(g));
+            for n in 2..=5 {
+                crate::fam::def_dags(n, &mut |g| push(g));
+            }
             crate::fam::single_call(crate::fam::v0(), k, &mut |g| push(g));
         },
         || Acc { samples: Some(Samples::new(3)), ..Default::default() },
